@@ -317,9 +317,24 @@ def r_children(rule, path, label, dims, root=None):
     if dims == 3 and iters.get(comps[2]) != "(0..%s).rev()" % N:
         rule.bad("%s|children|zorder" % label, "%s: children along z must be visited from the top down (`(0..n).rev()`), found `%s`: early exit on filled pixels relies on it" % (label, iters.get(comps[2])), A.where(fn, c))
         ok = False
+    # ... and none is skipped: the only test a child may sit behind is "its own corner is already beyond the
+    # image" - a test on the far corner drops children that still overlap the image
+    loops_ = [b[2] for b in binders if b[2].get("k") == "For"]
+    extra = []
+    if loops_:
+        for cj in sorted(A.path_conjuncts(loops_[0]["body"], c) or set()):
+            if re.fullmatch(r"\(\w+\.corner(\[\d\]|\.[xyz])<[\w.\[\]()]+\)", cj):
+                continue  # the child's near corner lies inside the image
+            extra.append(cj)
+    if extra:
+        ok = False
+        rule.bad("%s|children|skipped" % label, "%s: a child tile is rendered only under `%s`; every child that overlaps the image must be rendered (a test on `corner + size` skips the partial tile at the edge, whose in-range samples are then never evaluated)" % (label, " && ".join(extra)), A.where(fn, c))
+    elif ok:
+        rule.ok("%s: every child (each axis 0..n%s) is rendered once at its own corner" % (label, ", z descending" if dims == 3 else ""))
+        ok = None
     if ok:
         rule.ok("%s: every child (each axis 0..n%s) is rendered once at its own corner" % (label, ", z descending" if dims == 3 else ""))
-    elif dims == 2 or iters.get(comps[2] if len(comps) > 2 else "") == "(0..%s).rev()" % N:
+    elif ok is False and not extra and (dims == 2 or iters.get(comps[2] if len(comps) > 2 else "") == "(0..%s).rev()" % N):
         rule.bad("%s|children|loops" % label, "%s: child loops %s do not cover each axis 0..n with its own index (corner uses %s)" % (label, iters, comps), A.where(fn, c))
 
 
